@@ -141,11 +141,22 @@ def auto_nest(ex, st, first_range, ordinal):
         if not any(root is r for r in roots):
             roots.append(root)
     fresh_ids = set(id(o) for o in fresh_objs)
+    append_lists = []
     for e in undo:
         if e[0] == "field":
             raise Unsupported("object field written in a summarised loop body @%d" % st.lineno)
-        if e[0] in ("pylist", "pydict") and id(e[1]) not in fresh_ids:
-            raise Unsupported("outer list/dict mutated in a summarised loop body @%d" % st.lineno)
+        if e[0] == "pydict" and id(e[1]) not in fresh_ids:
+            raise Unsupported("outer dict mutated in a summarised loop body @%d" % st.lineno)
+        if e[0] == "pylist" and id(e[1]) not in fresh_ids:
+            # the only supported mutation of an outer list: exactly one append per iteration onto a list that
+            # is empty at loop entry (list-building loop)
+            lst, before = e[1], e[2]
+            if any(lst is a for a in append_lists):
+                raise Unsupported("outer list mutated more than once per iteration @%d" % st.lineno)
+            if len(loop_vars) != 1 or before or len(lst) != 1:
+                raise Unsupported("outer list mutated in a summarised loop body @%d (only single-append "
+                                  "list building from an empty list is summarised)" % st.lineno)
+            append_lists.append(lst)
     roots = [r for r in roots if id(r) not in fresh_ids]
     ex.rollback(undo)
     for n in names:
@@ -174,6 +185,11 @@ def auto_nest(ex, st, first_range, ordinal):
         mids[id(r)] = mid_terms
     undo, wlog, fresh_objs = run_body(False)
     fresh_ids = set(id(o) for o in fresh_objs)
+    appended = []
+    for lst in append_lists:
+        if len(lst) != 1:
+            raise Unsupported("list-building loop @%d: append count differs between runs" % st.lineno)
+        appended.append((lst, lst.pop()))
 
     # -- ownership of written cells -----------------------------------------------------------------
     owner = {}
@@ -205,6 +221,12 @@ def auto_nest(ex, st, first_range, ordinal):
         for t in ends[id(r)]:
             if t is not None:
                 _check_reads(t, all_mids, owner, loop_vars, seen, st.lineno)
+    for lst, elem in appended:
+        for c in (elem if isinstance(elem, (tuple, list)) else [elem]):
+            if V.sort_of(c) not in ("int", "real", "bool"):
+                raise Unsupported("list-building loop @%d appends non-scalar components" % st.lineno)
+            if is_z3(c):
+                _check_reads(c, all_mids, owner, loop_vars, seen, st.lineno)
 
     # -- closed form ---------------------------------------------------------------------------------
     sub_mid = []
@@ -233,6 +255,23 @@ def auto_nest(ex, st, first_range, ordinal):
         for (g, s), t in zip(_slots(r), new_terms):
             if t is not None:
                 s(t)
+    # list-building loops: the Python list becomes a list of symbolic length
+    for lst, elem in appended:
+        (v, rng_, _) = loop_vars[0]
+        k = fresh("k", z3.IntSort())
+        comps_src = list(elem) if isinstance(elem, (tuple, list)) else [elem]
+        comps, dts = [], []
+        for c in comps_src:
+            dt = "real" if V.sort_of(c) == "real" else "int"
+            t = V.z3real(c) if dt == "real" else V.z3int(c)
+            t = z3.substitute(t, *(list(sub_mid) + [(v, V.z3int(rng_.lo) + k)]))
+            comps.append(z3.Lambda([k], t))
+            dts.append(dt)
+        n = V.ite(compare("<", rng_.hi, rng_.lo), 0, arith("-", rng_.hi, rng_.lo))
+        sl = SymList(n, len(comps) if isinstance(elem, (tuple, list)) else None, dts, comps=comps)
+        for nme, val in list(env.items()):
+            if val is lst:
+                ex.set_env(env, nme, sl)
     del ex.pc[pc_len:]
     for n in names | set(t for _, _, t in loop_vars):
         ex.set_env(env, n, Poison("value after a summarised loop"))
